@@ -24,7 +24,7 @@ import time
 
 from harness.vlib.core import Ctx, ToolFailure
 
-from . import classify, corpus, diffwork, gen, norm, pool
+from . import classify, corpus, diffwork, families, gen, norm, pool
 
 MODEL_FILES = ["MypyVerif/Model/ParseNorm.lean", "MypyVerif/Model/ErrPos.lean", "MypyVerif/Proofs/ParseNorm.lean"]
 DRIVER = "Driver/C14.lean"
@@ -206,9 +206,36 @@ def tie_cfg(ctx: Ctx) -> None:
         classify.cfg_case(ctx, s, m, real, nat, reported)
 
 
+# ================================================================================ (d') module-level ignore
+def tie_module_ignore(ctx: Ctx) -> None:
+    """The rule of translate_stmt_list (a `# type: ignore` before the first statement — decorator-aware — ignores
+    the module): model vs both front ends on the type-ignore placement family."""
+    rng = ctx.rng
+    cases = []
+    for i in range(ctx.pick(250, 2500)):
+        src, desc = families.gen_ignore_placement(rng, invalid_tags=(i % 5 == 4))
+        inp = families.module_ignore_input(src)
+        if inp is not None:
+            cases.append((src, desc, inp))
+    for src in families.FIXED_PLACEMENT:
+        cases.append((src, {"kind": "fixed"}, families.module_ignore_input(src)))
+    lines = [json.dumps(["modign", inp[0], inp[1][0] if inp[1] else None, inp[1][1] if inp[1] else None]) for _, _, inp in cases]
+    mod = model(ctx, lines)
+    reported: set[str] = set()
+    for (src, desc, inp), m in zip(cases, mod):
+        ctx.case(("modign", src), nontrivial=bool(inp[0]))
+        ctx.dist("ignore_placement_first_statement", desc.get("kind", "?"))
+        ctx.dist("ignore_placement_model", "whole-module" if m["whole"] else "line-level" if m["ignores"] else "none")
+        obs = {native: families.real_module_ignore(src, native) for native in (False, True)}
+        ctx.count("traces_validated_against_impl", 2)
+        classify.module_ignore_case(ctx, src, desc, m, obs, reported)
+
+
 # ================================================================================ (e) the differential search
 POOL_SLICES = 8
-POOL_TAG = "C14-fixed-pool-v1"      # changing the generator, the corruptor or this tag changes the pool: re-verify every slice
+POOL_TAG = "C14-fixed-pool-v1"      # corpus / generated part; changing the generator, the corruptor or this tag changes the pool: re-verify every slice
+FAMILY_TAG = "C14-fixed-pool-v2"    # the targeted families (type-ignore placement, elided parameter names) added in v2
+POOL_VERSION = "v2"
 
 
 def programs(ctx: Ctx):
@@ -269,7 +296,24 @@ def programs(ctx: Ctx):
             tasks.append((("gen-%d-%d" % (sl, i), "base", ver), src, ver, "generated"))
             for kind, new in corpus.corrupt(src, r, 2, skip_lines=skip):
                 tasks.append((("gen-%d-%d" % (sl, i), kind, ver), new, ver, "generated-corrupted"))
-        ctx.coverage["differential_pool"] = "fixed pool %s, slice %d of %d (VERIF_SEED %% %d)" % (POOL_TAG, sl, POOL_SLICES, POOL_SLICES)
+        ctx.coverage["differential_pool"] = "fixed pool %s (corpus/generated part: %s; families: %s), slice %d of %d (VERIF_SEED %% %d)" \
+            % (POOL_VERSION, POOL_TAG, FAMILY_TAG, sl, POOL_SLICES, POOL_SLICES)
+    # the two targeted families (valid programs; fixed per slice in the quick tier, seed-driven otherwise)
+    import random as _random
+    n_fam = (14, 10) if not explore else ctx.pick((14, 10), (400, 300))
+    for i in range(n_fam[0]):
+        r = ctx.rng if explore else _random.Random("%s:placement:%d:%d" % (FAMILY_TAG, ctx.seed % POOL_SLICES, i))
+        ver = r.choice(VERSIONS)
+        src, desc = families.gen_ignore_placement(r)
+        ctx.dist("family_ignore_placement", desc["kind"])
+        tasks.append((("placement-%d" % i, "family", ver), src, ver, "family:type-ignore-placement"))
+    for i in range(n_fam[1]):
+        r = ctx.rng if explore else _random.Random("%s:elided:%d:%d" % (FAMILY_TAG, ctx.seed % POOL_SLICES, i))
+        ver = r.choice(VERSIONS)
+        src, desc = families.gen_elided_names(r)
+        for u in desc["uses"]:
+            ctx.dist("family_elided_names_use", u)
+        tasks.append((("elided-%d" % i, "family", ver), src, ver, "family:elided-parameter-names"))
     for name, src, vers in classify.PROBES:
         for ver in vers:
             tasks.append(((name, "probe", ver), src, ver, "probe"))
@@ -338,6 +382,7 @@ def main(ctx: Ctx) -> None:
     tie_signatures(ctx)
     tie_tags(ctx)
     tie_cfg(ctx)
+    tie_module_ignore(ctx)
     differential(ctx, base)
     if not proved and not ctx.violations:
         ctx.violation("Lean development for C14 no longer builds", {"broken": ctx.broken_ties}, found_input=False)
@@ -368,6 +413,10 @@ def replay(ctx: Ctx, path: str) -> int:
         print("parse_type_ignore_tag ->", norm.real_tag(det["tag"]))
         for native in (False, True):
             print("native" if native else "default", norm.real_comment_ignores(det["tag"], native))
+    elif "placement_source" in det:
+        print("model input (host ast):", families.module_ignore_input(det["placement_source"]))
+        for native in (False, True):
+            print("native" if native else "default", families.real_module_ignore(det["placement_source"], native))
     elif "cfg_source" in det:
         print("get_mypy_comments ->", norm.real_cfg(det["cfg_source"]), " native ->", norm.native_cfg(det["cfg_source"]))
     elif "clamp_args" in det:
